@@ -322,3 +322,42 @@ Theorem C14_find_ci_exact : forall ms key x, keys_unique (map fst ms) = true ->
   find_key key ms = Some x -> find_ci key ms = Some x.
 Proof. exact find_ci_exact. Qed.
 Print Assumptions C14_find_ci_exact.
+
+(* ---- (d) pointer utilities.  jbl_ptr_serialize writes "/" and the stored bytes of each segment; it inverts jbl_ptr_alloc on
+   every pointer whose segments need no escaping (no '/', '~'; `trailing_slash`: the text a pointer with a last segment ""
+   would give is refused by the parser, as C14_ptr_parse_trailing_slash says) *)
+Theorem C14_ptr_serialize_parse_partial : forall segs, Forall plain_seg segs -> trailing_slash (ptr_serialize segs) = false ->
+  ptr_parse (ptr_serialize segs) = Some segs.
+Proof. exact ptr_serialize_parse. Qed.
+Print Assumptions C14_ptr_serialize_parse_partial.
+
+Example C14_ptr_serialize_parse_ex :
+  Forall plain_seg [[97; 98]; []; [48]] /\ trailing_slash (ptr_serialize [[97; 98]; []; [48]]) = false /\
+  ptr_serialize [[97; 98]; []; [48]] = [47; 97; 98; 47; 47; 48].
+Proof.
+  split; [|split; vm_compute; reflexivity].
+  repeat (apply Forall_cons; [repeat (apply Forall_cons; [repeat split; discriminate|]); apply Forall_nil|]). apply Forall_nil.
+Qed.
+
+(* the full statement (for every parsed pointer) is FALSE of the code: a segment holding '/' or '~' is written back
+   unescaped - "/a~1b" parses to the one segment "a/b", which is serialised as "/a/b", a pointer with two segments
+   (replayed on the library: notes/jbinn.md, fixes/jbinn-ptr-serialize-escape.diff; outside the statement of C14, not judged) *)
+Theorem C14_ptr_serialize_parse_refuted : exists path segs,
+  ptr_parse path = Some segs /\ ptr_parse (ptr_serialize segs) <> Some segs.
+Proof. exact ptr_serialize_parse_refuted. Qed.
+Print Assumptions C14_ptr_serialize_parse_refuted.
+
+(* jbl_ptr_cmp (allocation size, segment count, strcmp of the segments): 0 on a pointer and itself, and 0 only when both texts
+   parse to the same segments *)
+Theorem C14_ptr_cmp_refl : forall path segs, ptr_parse path = Some segs -> ptr_cmp path path = Some 0.
+Proof. exact ptr_cmp_refl. Qed.
+Print Assumptions C14_ptr_cmp_refl.
+
+Theorem C14_ptr_cmp_zero : forall p1 p2, ptr_cmp p1 p2 = Some 0 ->
+  exists segs, ptr_parse p1 = Some segs /\ ptr_parse p2 = Some segs.
+Proof. exact ptr_cmp_zero. Qed.
+Print Assumptions C14_ptr_cmp_zero.
+
+Example C14_ptr_cmp_ex : ptr_cmp [47; 97] [47; 98] = Some (-1) /\ ptr_cmp [47; 97; 47; 98] [47; 97; 126; 49; 98] = Some 1 /\
+  ptr_cmp [47; 97; 126] [47; 97] = None.
+Proof. repeat split; vm_compute; reflexivity. Qed.
